@@ -65,6 +65,25 @@ def layer_kinds(name):
     return out, layers[-1]
 
 
+def cfg_token_count(name):
+    """how many tokens of `new` belong to the layers' configurations (the primitive's come after)"""
+    lk, p = layer_kinds(name)
+    c = 0
+    for l, k in lk:
+        t = l[0]
+        if t in ('strided', 'morton'):
+            c += int(l[1])
+        elif t == 'hilbert':
+            c += 2
+        elif t == 'clamp':
+            c += 2 * k.n
+        elif t == 'backup':
+            c += 2 * k.n + k.m
+        elif t == 'affine':
+            c += k.n * (k.n + 1)
+    return c
+
+
 def curve_cap(sizes):
     m = max(sizes) if sizes else 0
     p = 1
